@@ -361,6 +361,40 @@ def err_shapes(tier):
             # two levels: the handlers of the middle level sit between root and the failing components
             shapes.append(eh_set(root_eh, 1) + [{"k": "nest", "bp": {"ops": eh_set(nested_eh, 2) + obs + [
                 {"k": "nest", "bp": {"ops": inner[len(eh_set(nested_eh, 2)):]}}]}}])
+    # ERR-SHARE2: a request-scoped value whose only users are the handler and the error observer /
+    # error handler of a fallible middleware that does NOT take it itself (the error branch lives in
+    # another call graph than the other user; the value must still be built once per request)
+    for k in kinds:
+        for who in ("observer", "eh", "both"):
+            for hmode in ("PR", "PV") if tier == "thorough" else ("PR",):
+                ops = [ctor_op(0, "P" if hmode == "PR" else "K", "0", "s", "request_scoped", None if hmode == "PR" else "clone_if_necessary")]
+                f0 = "P" if hmode == "PR" else "K"
+                ops.append({"k": "observer", "c": f"OBS1__{f0}R" if who in ("observer", "both") else "OBS1__0"})
+                ops.append({"k": k, "c": mw_id(k, 1, True),
+                            "eh": f"EH_{ERR_OF[k]}_1__{f0}R" if who in ("eh", "both") else f"EH_{ERR_OF[k]}_2__0"})
+                ops.append({"k": "route", "c": handler_id(0, [f0 + hmode[1], "0", "0"])})
+                shapes.append(ops)
+    # ERR-OBSMIX: one fallible middleware (or a middleware fed by a fallible constructor) whose error
+    # handler takes the concrete error type, shared by a route WITHOUT error observers (in the
+    # blueprint that registers the middleware) and a route WITH observers (in a nested blueprint):
+    # the same middleware pipeline is generated once per observer set
+    for k in kinds:
+        for variant in ("self-fallible", "fallible-input"):
+            for outer_obs, inner_obs in ((0, 1), (1, 2), (0, 2)):
+                if tier == "quick" and (outer_obs, inner_obs) == (0, 2):
+                    continue
+                ops = []
+                if variant == "self-fallible":
+                    ops.append({"k": k, "c": mw_id(k, 1, True), "eh": f"EH_{ERR_OF[k]}_2__0"})
+                else:
+                    ops.append(ctor_op(0, "P", "0", "f", "request_scoped", None, eh="EH_ERRC_2__0"))
+                    ops.append({"k": k, "c": mw_id(k, 1, False, "PR")})
+                ops += [{"k": "observer", "c": f"OBS{j + 1}__0"} for j in range(outer_obs)]
+                ops.append({"k": "route", "c": handler_id(0, ["0", "0", "0"])})
+                inner = [{"k": "observer", "c": f"OBS{j + 1}__0"} for j in range(outer_obs, inner_obs)]
+                inner.append({"k": "route", "c": handler_id(1, ["0", "0", "0"])})
+                ops.append({"k": "nest", "bp": {"ops": inner}})
+                shapes.append(ops)
     return shapes
 
 
